@@ -26,14 +26,14 @@ type c20Grammar struct {
 
 // c20Options returns one of the option vectors within the property's scope:
 // fixWhitespace (with any reported skipped tokens) or no reported skipped tokens.
-func c20Options(r *rand.Rand, g *recgram.Grammar, v int) (o recgram.TextOpts, key string, ast bool, fileNode string) {
+func c20Options(r *rand.Rand, g *recgram.Grammar, v int, forceInject bool) (o recgram.TextOpts, key string, ast bool, fileNode string) {
 	o.Opts = append(o.Opts, tableOpts(r.Intn(8))...)
 	o.Comment = true
 	fix := v%3 != 2
 	if fix {
 		o.Opts = append(o.Opts, "fixWhitespace = true")
-		o.InjectComment = r.Intn(4) > 0
-		o.InjectInvalid = r.Intn(4) > 0
+		o.InjectComment = r.Intn(4) > 0 || forceInject
+		o.InjectInvalid = r.Intn(4) > 0 || forceInject
 		key = "fixws"
 		if o.InjectComment {
 			key += "+comments"
@@ -74,7 +74,8 @@ type c20Meta struct {
 	kind  string // x | ast | syn
 	text  string
 	class string
-	xID   int // for ast jobs: the x job with the same input and policy
+	xID   int // for ast and reuse jobs: the x job with the same input and policy (fresh parser)
+	reuse bool
 	syn   []genrun.Event
 	synL  int
 }
@@ -188,11 +189,17 @@ func c20Generated(c *fw.Ctx) {
 		if i%4 == 3 {
 			g = recgram.FromCFG(r, gram.RandCFG(r))
 		} else {
-			g = recgram.RandSkeleton(r, recgram.SkelOptions{})
+			g = recgram.RandSkeleton(r, recgram.SkelOptions{TrailingNull: true})
 		}
 		v := (len(gs) + c.Case) % 6
-		o, key, ast, fileNode := c20Options(r, g, v)
-		o.WithErr = r.Intn(6) > 0
+		noErr := r.Intn(4) == 0
+		if len(gs) == 0 {
+			// every case has a lexer-based parser without recovery that reports skipped tokens: a failed
+			// parse then returns with tokens still pending
+			v, noErr = 3*(c.Case%2), true
+		}
+		o, key, ast, fileNode := c20Options(r, g, v, len(gs) == 0)
+		o.WithErr = !noErr
 		o.Pkg = fmt.Sprintf("g%04d", len(gs))
 		cg := recgram.Compile(c, g, o)
 		if cg == nil {
@@ -265,6 +272,8 @@ func c20Generated(c *fw.Ctx) {
 				xid := len(jobs)
 				jobs = append(jobs, genrun.Job{ID: xid, Pkg: g.c.Pkg.Name + ".x", Mode: "parse", Entry: e, Text: tx[1], EH: pol, MaxEvents: 400*(len(tx[1])+2) + 1000})
 				meta = append(meta, c20Meta{g: g, kind: "x", text: tx[1], class: tx[0]})
+				jobs = append(jobs, genrun.Job{ID: len(jobs), Pkg: g.c.Pkg.Name + ".x", Mode: "parse,reuse", Entry: e, Text: tx[1], EH: pol, MaxEvents: 400*(len(tx[1])+2) + 1000})
+				meta = append(meta, c20Meta{g: g, kind: "x", text: tx[1], class: tx[0], reuse: true, xID: xid})
 				if g.ast && e == 0 {
 					jobs = append(jobs, genrun.Job{ID: len(jobs), Pkg: g.c.Pkg.Name + ".ast", Mode: "parse", Text: tx[1], EH: pol})
 					meta = append(meta, c20Meta{g: g, kind: "ast", text: tx[1], class: tx[0], xID: xid})
@@ -284,7 +293,7 @@ func c20Generated(c *fw.Ctx) {
 	if c.Case == 0 {
 		c.Sample(map[string]any{"grammar": gs[0].c.Pkg.Text, "input": meta[0].text})
 	}
-	res, err := genrun.Run(bin, c.WorkDir, jobs, 300)
+	res, err := genrun.Run(bin, c.WorkDir, jobs, 100)
 	if err != nil {
 		c.Violate("harness/runner/"+fw.Skeleton(err.Error()), err.Error(), nil)
 		return
@@ -312,12 +321,27 @@ func c20Generated(c *fw.Ctx) {
 				c.Violate("generated/panic/"+fw.Skeleton(firstLine(t.Panic)), desc()+"\n"+t.Panic, files)
 				continue
 			}
+			who := "generated"
+			if m.reuse {
+				who = "generated-reused-parser"
+			}
 			if is := recgram.CheckNesting(t.Events, len(m.text)); is != nil {
 				how := "valid-input"
 				if len(t.EH) > 0 || !t.OK {
 					how = "recovery"
 				}
-				c.Violate(nestSig("generated", is, t.Events, how), is.Detail+"\n"+desc(), files)
+				c.Violate(nestSig(who, is, t.Events, how), is.Detail+"\n"+desc(), files)
+				continue
+			}
+			if m.reuse {
+				// the log must not depend on what the same Parser object parsed before
+				if ft := res.Traces[m.xID]; ft != nil && ft.Panic == "" {
+					if !eventsEqual(ft.Events, t.Events) || ft.OK != t.OK || len(ft.EH) != len(t.EH) {
+						c.Violate("generated-reused-parser/log-differs-from-fresh-parser", desc()+"\nfresh parser events: "+recgram.EventsString(ft.Events), files)
+						continue
+					}
+					c.Count("reused_parser_logs_identical_to_fresh", 1)
+				}
 				continue
 			}
 			c.Count("event_logs_well_nested", 1)
@@ -439,7 +463,7 @@ func c20Generated(c *fw.Ctx) {
 
 // nestSig builds the signature of a log violation: the mechanism first when the log shows it.
 func nestSig(who string, is *recgram.NestIssue, ev []genrun.Event, how string) string {
-	if m := recgram.ClassifyNesting(is, ev); m != "" {
+	if m := recgram.ClassifyNesting(is, ev); m != "" && !strings.Contains(who, "reused") {
 		return m + "/" + is.Sig + "/" + who + "/" + how
 	}
 	return who + "/" + is.Sig + "/" + how
@@ -494,6 +518,7 @@ func c20ShippedCase(c *fw.Ctx, parser string) {
 		return
 	}
 	entries := recgram.ShippedEntries[parser]
+	recgram.ResetShared()
 	hasAST := parser == "tm" || parser == "js"
 	distinct := 0
 	for i, text := range inputs {
@@ -531,6 +556,19 @@ func c20ShippedCase(c *fw.Ctx, parser string) {
 		}
 		c.Count("shipped_"+parser+"_logs_well_nested", 1)
 		c.Count("events_checked", int64(len(run.Events)))
+		// the same input on the long-lived parser of this case
+		ro := o
+		ro.Reuse = true
+		rrun := recgram.RunShipped(text, ro)
+		if rrun.Panic != "" {
+			c.Violate("shipped-"+parser+"-reused-parser/panic/"+fw.Skeleton(firstLine(rrun.Panic)), desc()+"\n"+rrun.Panic, files)
+		} else if is := recgram.CheckNesting(rrun.Events, len(text)); is != nil {
+			c.Violate(nestSig("shipped-"+parser+"-reused-parser", is, rrun.Events, "any"), is.Detail+"\n"+desc()+"\nreused parser events: "+recgram.EventsString(rrun.Events), files)
+		} else if !eventsEqual(run.Events, rrun.Events) || run.OK != rrun.OK {
+			c.Violate("shipped-"+parser+"-reused-parser/log-differs-from-fresh-parser", desc()+"\nreused parser events: "+recgram.EventsString(rrun.Events), files)
+		} else {
+			c.Count("reused_parser_logs_identical_to_fresh", 1)
+		}
 		if len(run.EH) > 0 {
 			c.Count("shipped_"+parser+"_logs_with_recovery", 1)
 		}
@@ -594,7 +632,7 @@ func c20Run(c *fw.Ctx) {
 func init() {
 	fw.Register(&fw.Check{
 		ID:          "C20",
-		Rule:        "shipped cases: tm, js (3 dialects, 4 entry points), json, test parsers imported from the repository run on test-suite snippets and repository files, mostly with 1-3 text mutations, 'continue always' handler; the recorded listener log must satisfy the trace specification (inside the input, not inverted, pairwise disjoint or nested, strict container after its content; checked with a sorted list of maximal intervals). For tm and js the tree of ast.Parse on the same input is read through the public Node API and compared with the log: same node multiset (+File), every non-empty node below the smallest reported strict container (or chained with nodes of equal range), empty nodes below a node containing their offset (inside the smallest node having it in its interior), siblings in source order. Generated cases: recovery grammars (skeleton and random families of C19) under option vectors inside the property's scope - fixWhitespace with reported comments and invalid tokens (lexer-based and tokenStream parsers) or nothing reported without fixWhitespace; half with eventAST (+fileNode) - run on sentences with comments and foreign characters, mutants, garbage; same log check; eventAST packages: ast.Parse tree vs. log, and the generated builder fed directly with synthetic well-nested streams in hostile legal orders (disjoint nodes out of source order, delayed leaves, equal-range chains, boundary empties). Non-trivial/distinct: grammar with >=20 logs of >=5 events; shipped input with >=5 events",
+		Rule:        "shipped cases: tm, js (3 dialects, 4 entry points), json, test parsers imported from the repository run on test-suite snippets and repository files, mostly with 1-3 text mutations, 'continue always' handler, each input on fresh and on long-lived Parser/TokenStream/Lexer objects; the recorded listener log must satisfy the trace specification (inside the input, not inverted, pairwise disjoint or nested, strict container after its content; checked with a sorted list of maximal intervals). For tm and js the tree of ast.Parse on the same input is read through the public Node API and compared with the log: same node multiset (+File), every non-empty node below the smallest reported strict container (or chained with nodes of equal range), empty nodes below a node containing their offset (inside the smallest node having it in its interior), siblings in source order. Generated cases: recovery grammars (skeleton and random families of C19) under option vectors inside the property's scope - fixWhitespace with reported comments and invalid tokens (lexer-based and tokenStream parsers) or nothing reported without fixWhitespace; half with eventAST (+fileNode) - (statement forms ending in a nullable nonterminal, also followed by a state marker; every case contains a lexer-based parser without recovery that reports comments and invalid tokens) run on sentences with comments and foreign characters, mutants, garbage, each input on a fresh Parser and on a long-lived one shared by consecutive runs (log must be well nested and equal to the fresh one); same log check; eventAST packages: ast.Parse tree vs. log, and the generated builder fed directly with synthetic well-nested streams in hostile legal orders (disjoint nodes out of source order, delayed leaves, equal-range chains, boundary empties). Non-trivial/distinct: grammar with >=20 logs of >=5 events; shipped input with >=5 events",
 		Assumptions: []string{"the public Node API (Child/Next/Offset/Endoffset/Type) reflects the built tree", "for empty nodes and for nodes of equal range the statement leaves the parent open: any containing parent / either order is accepted"},
 		Cases: func(tier string) int {
 			a, b := c20Layout(tier)
@@ -605,7 +643,7 @@ func init() {
 		CPUBudget:     1200,
 		MinNontrivial: func(tier string) int { return 200 },
 		RequiredCounters: []string{"event_logs_well_nested", "logs_with_recovery", "invalid_token_nodes", "comment_nodes", "empty_nodes",
-			"generated_trees_checked", "generated_trees_after_recovery", "synthetic_streams_built_correctly",
+			"generated_trees_checked", "generated_trees_after_recovery", "reused_parser_logs_identical_to_fresh", "grammars_without_recovery", "synthetic_streams_built_correctly",
 			"shipped_tm_trees_checked", "shipped_js_trees_checked", "shipped_tm_trees_after_recovery", "shipped_js_trees_after_recovery",
 			"shipped_json_logs_well_nested", "shipped_test_logs_well_nested", "shipped_js_logs_with_recovery", "shipped_tm_logs_with_recovery"},
 	})
